@@ -88,6 +88,8 @@ def obligations(tier):
                     continue
                 obs.append(Ob(f"scripted[k={k},cycles={cycles},{d},inf={int(inf)}]",
                               ob_scripted(k, cycles, d, inf), 900 if (k, cycles) in ((4, 1), (3, 2), (2, 3)) else 300))
+    for k, cycles in ((2, 1), (3, 1)):
+        obs.append(Ob(f"scripted[k={k},cycles={cycles},max-str,inf=0]", ob_scripted(k, cycles, "max-str", False), 300))
     for mode in ("thread", "process"):
         for d in ("min", "max"):
             obs.append(Ob(f"pooled[n={3 if th else 2},{mode},{d}]", ob_pooled(3 if th else 2, mode, d), 600))
